@@ -119,7 +119,7 @@ func (e *FnExec) specEnv(st *State, scopePos token.Pos) *SpecEnv {
 			env.vars[n] = specVar{v.T, e.paramTy[n]}
 		}
 	} else {
-		for _, li := range e.loops {
+		for _, li := range e.sortedLoops() {
 			if li.inScope == scopePos {
 				env.curLoop = li
 			}
@@ -1076,7 +1076,7 @@ func (e *FnExec) applyContract(st *State, key string, con *Contract, sig *types.
 			for _, it := range items {
 				classes[it.class] = it.sort
 			}
-			for _, li := range e.loops {
+			for _, li := range e.sortedLoops() {
 				if li.framed && li.blocks[e.curBlock] {
 					for _, it := range items {
 						var g *Term
@@ -1392,14 +1392,14 @@ func (e *FnExec) appendBuiltin(st *State, c *ssa.CallCommon, res ssa.Value) {
 			v := e.load(st, IdxLoc(SArr(t), Add(SOff(t), IntLit(i))), sl.Elem())
 			e.store(gp, IdxLoc(newArr, Add(SLen(s), IntLit(i))), sl.Elem(), v)
 		}
-		for cl := range gp.mem {
+		for _, cl := range sortedKeys(gp.mem) {
 			so := e.classes[cl]
 			a, b := e.getMem(ip, cl, so), e.getMem(gp, cl, so)
 			if a != b || a != e.getMem(st, cl, so) {
 				e.setMem(st, cl, so, Ite(fits, a, b))
 			}
 		}
-		for cl := range ip.mem {
+		for _, cl := range sortedKeys(ip.mem) {
 			so := e.classes[cl]
 			a, b := e.getMem(ip, cl, so), e.getMem(gp, cl, so)
 			if a != b {
